@@ -259,13 +259,14 @@ class Unit:
                     tags = []
                     for e in self.entries:
                         h = e.head
-                        if h[0] == "hint" and h[1] in ("*", alias) and fn.key == h[2] and not getattr(e, "stmt_done", False):
-                            e.stmt_done = True
+                        if h[0] == "hint" and h[1] in ("*", alias) and fn.key == h[2] and not getattr(e, "stmt_done", False) \
+                                and not e.used:
+                            # (a hint already attached by the extraction of the whole function is in the rendered text already)
                             n = int(h[6][1:]) if len(h) > 6 else 1
                             pos = rsx.stmt_anchor(src, fn, h[3], h[4], h[5], n)
                             if not (lo <= pos <= hi):
-                                raise Drift("%s: hint `%s` lies outside the extracted statement `%s` of %s" % (
-                                    src.origin, " ".join(h), what, fn.key))
+                                continue
+                            e.stmt_done = True
                             rsx.inject_hint(src, ed, fn, h[3], h[4], h[5], n, e)
                             e.used = True
                     self.fn_meta[mkey] = dict(tags=tags, drifted=False, origin=src.origin, line=src.line_of(lo),
